@@ -398,8 +398,11 @@ func runC06(ctx *report.Ctx) {
 		switch {
 		case restorePanic != nil:
 			report1("panic", fmt.Sprintf("RestoreAt panicked: %v", restorePanic), nil)
+		case restoreErr != nil && kind != 3:
+			// refusing a snapshot with a missing (nil) field with an error is not forbidden: not constrained
+			ctx.Skip("a host-built snapshot with a nil field was refused with an error")
 		case restoreErr != nil:
-			report1("restore-refused", "RestoreAt of a snapshot naming an existing node failed: "+restoreErr.Error(), nil)
+			report1("restore-refused", "RestoreAt of a complete snapshot naming an existing node failed: "+restoreErr.Error(), nil)
 		case fr.LoadPanic != "" || fr.LoadErr != nil:
 			ctx.HarnessError("HC: script does not load: %v %s\n%s", fr.LoadErr, fr.LoadPanic, script)
 		case fr.Panic != "":
